@@ -233,74 +233,142 @@ def check(run):
                   'positive side asserts %s, negative side asserts %s' % (sp_, sn), fn_)
     run.floor(n, 6, r2, 'polarity pairs')
 
-    r3 = run.rule('C19.3', 'sismic.testing predicates read the macro-step attribute of their name, return True only under a match and False at the end')
+    r3 = run.rule('C19.3', 'sismic.testing predicates: there-exists over the given macro steps of a match on the attribute of their name; True only under a match, '
+                           'False otherwise; event predicates require every expected parameter to match')
     want = {'state_is_entered': 'entered_states', 'state_is_exited': 'exited_states', 'event_is_fired': 'sent_events', 'event_is_consumed': 'event',
             'transition_is_processed': 'transitions'}
+    tmod = run.tree.modules['sismic.testing']
     for fname, attr in want.items():
         fi = run.fn('sismic.testing:' + fname)
         F = fi.node
         ps = q.param_names(F)
-        loops = [n for n in q.walk(F, False) if isinstance(n, ast.For) and isinstance(strip_cast(n.iter), ast.Name) and strip_cast(n.iter).id == ps[0]]
-        run.check(len(loops) >= 1, r3, fi.short, 'iterates the given macro steps', 'does not iterate %s' % ps[0], F)
+        # iteration sites over the given steps: for loops and comprehension generators
+        aliases = {ps[0]}
+        for _ in range(4):
+            for n_ in q.walk(F):
+                if isinstance(n_, ast.Assign) and isinstance(n_.targets[0], ast.Name) and any(isinstance(x, ast.Name) and x.id in aliases for x in ast.walk(n_.value)):
+                    aliases.add(n_.targets[0].id)
+        sites = [n for n in q.walk(F) if isinstance(n, (ast.For, ast.comprehension)) and isinstance(strip_cast(n.iter), ast.Name) and strip_cast(n.iter).id in aliases]
+        run.check(len(sites) >= 1, r3, fi.short, 'iterates the given macro steps', 'does not iterate %s' % ps[0], F)
         attrs = set()
-        for lp in loops:
-            sv = lp.target.id
-            attrs |= {n.attr for n in ast.walk(lp) if isinstance(n, ast.Attribute) and isinstance(n.value, ast.Name) and n.value.id == sv}
+        for site in sites:
+            sv = site.target.id if isinstance(site.target, ast.Name) else None
+            scope = site if isinstance(site, ast.For) else getattr(site, '_parent', F)
+            for n in ast.walk(scope):
+                if isinstance(n, ast.Attribute) and isinstance(n.value, ast.Name) and n.value.id == sv:
+                    attrs.add(n.attr)
         run.check(attrs == {attr}, r3, fi.short, 'reads macro-step attribute %s' % attr, 'reads %s' % sorted(attrs), F)
+        run.check(not any(isinstance(n, ast.Subscript) and isinstance(n.slice, ast.Slice) and ps[0] in q.unparse(n.value) for n in q.walk(F)), r3, fi.short,
+                  'all the given steps are examined', 'only a slice of the steps is examined', F)
+        # the search over steps (and over the events of a step) never stops before a match: no break out of those loops
+        for lp_ in [n for n in q.walk(F, False) if isinstance(n, ast.For) and not q.unparse(n.iter).endswith('.items()')]:
+            early = [b for st_ in lp_.body for b in ast.walk(st_) if isinstance(b, ast.Break) and q.enclosing(b, ast.For) is lp_]
+            run.check(not early, r3, fi.short, 'the search loop over %s runs until a match or the end' % q.unparse(lp_.iter)[:30],
+                      'a break leaves the search before every candidate was examined: a later matching element is missed', early[0] if early else lp_)
         rets = [n for n in q.walk(F, False) if isinstance(n, ast.Return)]
         trues = [x for x in rets if isinstance(x.value, ast.Constant) and x.value.value is True]
         falses = [x for x in rets if isinstance(x.value, ast.Constant) and x.value.value is False]
-        run.check(len(trues) >= 1 and len(falses) >= 1 and len(trues) + len(falses) == len(rets), r3, fi.short, 'returns the literals True / False', 'other return values', F)
+        anys = [x for x in rets if isinstance(strip_cast(x.value), ast.Call) and isinstance(strip_cast(x.value).func, ast.Name) and strip_cast(x.value).func.id == 'any'
+                and isinstance(strip_cast(x.value).args[0], (ast.GeneratorExp, ast.ListComp))]
+        run.check(len(trues) + len(falses) + len(anys) == len(rets) and (anys or (trues and falses)), r3, fi.short, 'returns a boolean verdict (True/False literals or any(..))',
+                  'other return values', F)
         for x in trues:
             at = guard_atoms(x)
-            run.check(any(q.enclosing(x, ast.For) is not None for _ in [0]) and len(at) >= 1, r3, fi.short, 'True only under a match inside the loop', 'unconditional True', x)
-            nm = set()
+            in_loop = q.enclosing(x, ast.For) is not None or (isinstance(getattr(x, '_parent', None), ast.For) and x in x._parent.orelse)
+            run.check(in_loop and (len(at) >= 1 or isinstance(getattr(x, '_parent', None), ast.For)), r3, fi.short, 'True only under a match inside the loop', 'unconditional True', x)
+        for x in falses:
+            run.check(q.enclosing(x, (ast.For, ast.While)) is None, r3, fi.short, 'False only after all steps were examined', 'returns False inside the loop', x)
+        # the verdict depends on every argument
+        nm = set()
+        for x in trues:
             for g in guards(x):
                 nm |= value_names(F, g[0])
-            # a `return True` in the else clause of a loop depends on that loop never breaking
             lp_ = x._parent if isinstance(getattr(x, '_parent', None), ast.For) and x in x._parent.orelse else None
             if lp_ is not None:
                 nm |= value_names(F, lp_.iter)
                 for b in [b for b in ast.walk(lp_) if isinstance(b, ast.Break)]:
                     for g in guards(b, stop=lp_):
                         nm |= value_names(F, g[0])
-            need = [p_ for p_ in ps[1:] if p_ not in nm]
-            run.check(not need, r3, fi.short, 'the match depends on %s' % ps[1:], 'arguments %s ignored' % need, x)
-        for x in falses:
-            run.check(q.enclosing(x, (ast.For, ast.While)) is None, r3, fi.short, 'False only after all steps were examined', 'returns False inside the loop', x)
-        norm_steps = [st for st, v in q.assigned_value(F, ps[0])]
-        run.check(len(norm_steps) == 1 and 'isinstance(%s, list)' % ps[0] in q.unparse(norm_steps[0].value), r3, fi.short, 'accepts a macro step or a list of them', 'differs', F)
+        for x in anys:
+            nm |= value_names(F, x.value)
+        # arguments handed to a private helper of the module count through the helper's own use of its parameters
+        for c in q.calls(F):
+            if isinstance(c.func, ast.Name) and c.func.id.startswith('_'):
+                h = [f for f in tmod.tree.body if isinstance(f, ast.FunctionDef) and f.name == c.func.id]
+                if h and any(q.in_node(c, g[0]) for x in trues for g in guards(x)):
+                    for a_ in c.args:
+                        nm |= value_names(F, a_)
+        need = [p_ for p_ in ps[1:] if p_ not in nm]
+        run.check(not need, r3, fi.short, 'the match depends on %s' % ps[1:], 'arguments %s ignored' % need, F)
+        wrap = [n for n in q.walk(F) if isinstance(n, ast.Call) and isinstance(n.func, ast.Name) and n.func.id == 'isinstance' and len(n.args) == 2
+                and q.unparse(n.args[1]) == 'list' and any(isinstance(x, ast.Name) and (x.id in aliases or x.id.startswith(ps[0] + '__i')) for x in ast.walk(n.args[0]))]
+        run.check(len(wrap) >= 1, r3, fi.short, 'accepts a macro step or a list of them', 'a single macro step is not wrapped into a list', F)
+
+    def all_match_form(fn, pvar):
+        """The loop over pvar.items() in fn decides `every expected parameter matches` in one of the accepted forms."""
+        loops = [n for n in q.walk(fn) if isinstance(n, (ast.For, ast.comprehension)) and q.unparse(n.iter) == pvar + '.items()']
+        if len(loops) != 1:
+            return None, 'found %d loops over %s.items()' % (len(loops), pvar)
+        lp = loops[0]
+        k, v_ = [e.id for e in lp.target.elts] if isinstance(lp.target, ast.Tuple) and len(lp.target.elts) == 2 else ('?', '?')
+
+        def mismatch(at):
+            return len(at) == 1 and at[0][0] == '!=' and v_ in (at[0][1], at[0][2]) and 'getattr(' in at[0][1] + at[0][2] and (', %s, None)' % k) in at[0][1] + at[0][2]
+        if isinstance(lp, ast.comprehension):
+            comp = lp._parent
+            call = getattr(comp, '_parent', None)
+            c_ = q.canon_atom(comp.elt) if isinstance(comp, (ast.GeneratorExp, ast.ListComp)) else None
+            okk = isinstance(call, ast.Call) and isinstance(call.func, ast.Name) and call.func.id == 'all' and not lp.ifs and c_ is not None and \
+                c_[0] == '==' and c_[3] and v_ in (c_[1], c_[2]) and 'getattr(' in c_[1] + c_[2]
+            return okk, 'all(getattr(e, k, None) == v for ..)'
+        exits = [x for st_ in lp.body for x in ast.walk(st_) if isinstance(x, (ast.Break, ast.Return, ast.Continue)) and q.enclosing(x, ast.For) is lp]
+        trues_else = [x for x in lp.orelse if isinstance(x, ast.Return) and isinstance(x.value, ast.Constant) and x.value.value is True]
+        if trues_else:
+            okk = len(exits) >= 1 and all(isinstance(x, ast.Break) and mismatch(guard_atoms(x, stop=lp)) for x in exits)
+            return okk, 'for/else'
+        ret_false = [x for x in exits if isinstance(x, ast.Return)]
+        if ret_false:
+            after = [x for x in q.walk(fn, False) if isinstance(x, ast.Return) and not q.in_node(x, lp)]
+            okk = all(isinstance(x.value, ast.Constant) and x.value.value is False and mismatch(guard_atoms(x, stop=lp)) for x in ret_false) and len(ret_false) == len(exits) and \
+                len(after) == 1 and isinstance(after[0].value, ast.Constant) and after[0].value.value is True
+            return okk, 'return False on mismatch, True after the loop'
+        # flag form
+        flags = set()
+        for x in ast.walk(lp):
+            if isinstance(x, ast.Assign) and isinstance(x.targets[0], ast.Name) and isinstance(x.value, ast.Constant) and x.value.value is False:
+                flags.add(x.targets[0].id)
+        if len(flags) == 1:
+            flag = next(iter(flags))
+            inside = [(st, v) for st, v in q.assigned_value(fn, flag) if q.in_node(st, lp)]
+            outside = [(st, v) for st, v in q.assigned_value(fn, flag) if not q.in_node(st, lp)]
+            okk = all(isinstance(v, ast.Constant) and v.value is False and mismatch(guard_atoms(st, stop=lp)) for st, v in inside) and \
+                len(outside) == 1 and isinstance(outside[0][1], ast.Constant) and outside[0][1].value is True and \
+                all(isinstance(x, ast.Break) for x in exits)
+            trues_ = [x for x in q.walk(fn, False) if isinstance(x, ast.Return) and isinstance(x.value, ast.Constant) and x.value.value is True]
+            okk = okk and all(('truthy', flag, '') in guard_atoms(x) for x in trues_) and bool(trues_)
+            return okk, 'flag cleared on mismatch'
+        return False, 'unrecognised form'
     for fname in ('event_is_fired', 'event_is_consumed'):
         fi = run.fn('sismic.testing:' + fname)
         F = fi.node
         pp = q.param_names(F)[2]
-        ploops = [n for n in q.walk(F) if isinstance(n, ast.For) and q.unparse(n.iter) == pp + '.items()']
-        run.check(len(ploops) == 1, r3, fi.short, 'one loop over the expected parameters', 'found %d' % len(ploops), F)
-        for lp in ploops:
-            trues = [x for x in q.walk(F, False) if isinstance(x, ast.Return) and isinstance(x.value, ast.Constant) and x.value.value is True]
-            flags = {a[1] for x in trues for a in guard_atoms(x) if a[0] == 'truthy' and a[1].isidentifier()}
-            k, v_ = [e.id for e in lp.target.elts] if isinstance(lp.target, ast.Tuple) else ('?', '?')
-            if any(x in lp.orelse for x in trues):
-                # for/else form: True is returned iff the loop over the parameters never breaks; every break is a mismatch test
-                brks = [b for b in ast.walk(lp) if isinstance(b, ast.Break)]
-                okb = len(brks) >= 1 and not any(isinstance(b, (ast.Return, ast.Continue)) for st_ in lp.body for b in ast.walk(st_))
-                for b in brks:
-                    at = guard_atoms(b, stop=lp)
-                    okb = okb and len(at) == 1 and at[0][0] == '!=' and v_ in (at[0][1], at[0][2]) and 'getattr(' in at[0][1] + at[0][2] and k in at[0][1] + at[0][2]
-                run.check(okb, r3, fi.short, 'True iff no parameter mismatches (for/else form)', 'the parameter loop can finish without a mismatch test deciding', lp)
-                continue
-            run.check(len(flags) == 1, r3, fi.short, 'a single all-parameters-match flag decides', 'flags: %s' % sorted(flags), F)
-            for flag in flags:
-                inside = [(st, v) for st, v in q.assigned_value(F, flag) if q.in_node(st, lp)]
-                outside = [(st, v) for st, v in q.assigned_value(F, flag) if not q.in_node(st, lp)]
-                good = all(isinstance(v, ast.Constant) and v.value is False for st, v in inside) and len(inside) >= 1 and \
-                    all(isinstance(v, ast.Constant) and v.value is True for st, v in outside) and len(outside) == 1
-                run.check(good, r3, fi.short, 'the flag starts True and can only be cleared by a mismatch',
-                          'a later matching parameter can set the flag again: an event with a wrong earlier parameter is accepted', lp)
-                for st, v in inside:
-                    at = guard_atoms(st, stop=lp)
-                    run.check(len(at) == 1 and at[0][0] == '!=' and v_ in (at[0][1], at[0][2]) and ('getattr(' in at[0][1] + at[0][2]) and k in at[0][1] + at[0][2], r3, fi.short,
-                              'cleared exactly when the attribute differs from the expected value', 'condition is %s' % at, st)
+        okk, form = all_match_form(F, pp)
+        where_ = fi.short
+        if okk is None:
+            # the loop may live in a private helper of the module that receives the parameters
+            for c in q.calls(F):
+                if isinstance(c.func, ast.Name) and c.func.id.startswith('_') and any(isinstance(a_, ast.Name) and a_.id == pp for a_ in c.args):
+                    h = [f for f in tmod.tree.body if isinstance(f, ast.FunctionDef) and f.name == c.func.id]
+                    if h:
+                        hp = q.param_names(h[0])[[i for i, a_ in enumerate(c.args) if isinstance(a_, ast.Name) and a_.id == pp][0]]
+                        okk, form = all_match_form(h[0], hp)
+                        where_ = fi.short + ' via ' + h[0].name
+                        # the helper's verdict must gate the True result
+                        gated = any(q.in_node(c, g[0]) and g[1] for x in q.walk(F, False) if isinstance(x, ast.Return) and isinstance(x.value, ast.Constant) and x.value.value is True for g in guards(x))
+                        okk = bool(okk) and gated
+        run.check(bool(okk), r3, fi.short, 'True requires every expected parameter to match (%s)' % form,
+                  'the parameter comparison does not require all parameters to match (%s, %s)' % (where_, form), F)
+
     eh = run.fn('sismic.testing:expression_holds')
     rets = [n for n in q.walk(eh.node, False) if isinstance(n, ast.Return)]
     ps = q.param_names(eh.node)
@@ -428,6 +496,9 @@ def check(run):
         run.check(any(a[0] == '==' and ((a[1].endswith('.name') and a[2] == scen) or (a[2].endswith('.name') and a[1] == scen)) for a in at), r6, rs.short,
                   'reproduces the scenario of the given name', 'condition is %s' % at, ex[0])
         run.check(any(a[0] == 'in' and a[1].endswith('.step_type') and "'given'" in a[2] and "'when'" in a[2] for a in at), r6, rs.short, 'only its given/when steps are re-executed', 'differs', ex[0])
+        lp_ = q.enclosing(ex[0], ast.For)
+        run.check(lp_ is not None and not any(isinstance(x, ast.Break) for x in ast.walk(lp_)), r6, rs.short, 'every given/when step of the reproduced scenario is re-executed',
+                  'the replay stops at the first step that is not a given/when step: later given/when steps are skipped', lp_ if lp_ is not None else rs.node)
 
 
 def rules_userdata(run):
